@@ -421,7 +421,10 @@ func replayOnce(bin string, scen, tier string, seed uint64, cs int, tape []uint3
 var panicRe = regexp.MustCompile(`(?m)^(panic: .*|fatal error: .*)$`)
 
 func crashViolation(wo workerOut) (Violation, bool) {
-	if wo.exit == 4 || wo.exit == 2 {
+	// exit 4: the worker's own watchdog gave up (infrastructure). An
+	// unrecovered Go panic exits with 2, as do the worker's own complaints
+	// about its arguments; the latter print no "panic:" line.
+	if wo.exit == 4 {
 		return Violation{}, false
 	}
 	if strings.Contains(wo.stderr, "WARNING: DATA RACE") {
